@@ -89,7 +89,7 @@ impl Gen {
     }
     fn opens(&mut self, rng: &mut StdRng, max: usize) -> Vec<Value> {
         (0..rng.random_range(1..=max)).map(|_| {
-            let inst = rng.random_range(0..4i64);
+            let inst = rng.random_range(0..world2::N_INST as i64);
             let cid = self.fresh();
             let side = if rng.random_bool(0.5) { "buy" } else { "sell" };
             let qty = rng.random_range(1..=3);
@@ -128,7 +128,7 @@ impl Gen {
         json!({"link": link, "algoC": c, "algoO": o, "refuse": refuse})
     }
     fn event(&mut self, rng: &mut StdRng) -> Value {
-        let inst = rng.random_range(0..4i64);
+        let inst = rng.random_range(0..world2::N_INST as i64);
         let ex = world2::EX_OF[inst as usize] as i64;
         let nf = engine_gen::no_filter;
         let live = |g: &Gen, rng: &mut StdRng| g.live.iter().filter(|l| l.0 == inst).cloned().nth(rng.random_range(0..3)).unwrap_or_else(|| (inst, "none".to_string(), "buy".to_string(), 2));
